@@ -187,6 +187,143 @@ example :
     Spec.messages (Spec.decodePrefixAux r.2.1.length r.2.1) = [⟨1, false, witHello⟩] :=
   prepared_equiv true 0 1 (Or.inl rfl) witHello witKeys 0 (by decide)
 
+
+/-! #### the connection-level theorems (`prepared_*_roundtrip`, `newPrepared_valid`, `cache_valid_preserved_*`) -/
+
+open WS.PreparedSend
+
+/-- a 300-byte binary payload -/
+def witData300 : Bytes := List.replicate 300 0x42
+def witData300_len : witData300.length < 2 ^ 40 := by rw [witData300, List.length_replicate]; decide
+
+/-- what NewPreparedMessage(BinaryMessage, <300 bytes>) returns: the plain server frame 82 7e 01 2c … -/
+def witPMb : PM :=
+  { t := 2, data := witData300,
+    cache := [(⟨true, false, 0⟩, (renderPlain ⟨true, false, 0⟩ 2 witData300 witKeys 0).2.1)] }
+
+/-- witness for `newPrepared_valid`: `newPrepared 2 <300 bytes>` succeeds and returns `witPMb` -/
+def witPMb_new : (newPrepared 2 witData300 witKeys 0).1 = .ok witPMb := by
+  have h := (prepared_equiv true 0 2 (Or.inr rfl) witData300 witKeys 0 witData300_len).1
+  unfold newPrepared
+  dsimp only
+  split
+  · rename_i e img ki heq
+    rw [show ((2 : Nat) : Int) = 2 from rfl, heq] at h
+    cases h
+  · rename_i img ki heq
+    simp only [witPMb, heq]
+
+/-- non-vacuity of `newPrepared_valid`: the hypothesis holds for the 300-byte binary message, and the theorem applies -/
+example : PMValid witPMb ∧ witPMb.t = 2 ∧ witPMb.data = witData300 :=
+  newPrepared_valid 2 witData300 witKeys 0 witPMb witPMb_new
+def witPMb_valid : PMValid witPMb := (newPrepared_valid 2 witData300 witKeys 0 witPMb witPMb_new).1
+
+/-- the cached image is the unmasked server frame: 82 7e 01 2c + 300 bytes -/
+example : (witPMb.lookup ⟨true, false, 0⟩).map (fun i => (i.take 5, i.length)) = some ([0x82, 0x7e, 0x01, 0x2c, 0x42], 304) := by
+  decide +kernel
+
+/-- the freshly constructed client `witC` is `Idle` -/
+def witC_idle : Idle witC :=
+  ⟨rfl, rfl, rfl, (fun m h => by cases h), ⟨by decide, by decide⟩, ⟨[], by decide, rfl⟩, rfl⟩
+/-- the client after one text message "Hello" went out (first masking key used) -/
+def witCm : W := (writeMessage witC 1 witHello).2
+/-- witness for `prepared_data_roundtrip` / `prepared_control_roundtrip`: that client is `Idle` again -/
+def witCm_idle : Idle witCm :=
+  (writeMessage_roundtrip witC witC_idle 1 (Or.inl rfl) witHello (by decide)).2.1
+/-- witness: the client's key is an uncompressed one -/
+def witCm_plain : (prepKey witCm witPMb).compress = false := by decide +kernel
+
+/-- non-vacuity of `prepared_data_roundtrip`: all hypotheses hold for the 300-byte binary prepared message
+    sent on a client connection (buffer 4096) that has already sent one message, and the theorem applies -/
+example : (writePrepared witCm witPMb none).1 = none ∧ Idle (writePrepared witCm witPMb none).2.1 ∧
+    wireMessages (writePrepared witCm witPMb none).2.1 = wireMessages witCm ++ [⟨2, false, witData300⟩] ∧
+    wireControls (writePrepared witCm witPMb none).2.1 = wireControls witCm :=
+  prepared_data_roundtrip witCm witCm_idle witPMb witPMb_valid 2 (Or.inr rfl) rfl witData300_len witCm_plain
+
+/-- … this send is a cache miss: the variant is rendered now, masked with the connection's next key
+    (11 22 33 44 — the first one went into the "Hello" frame, 11 bytes), and added to the cache -/
+example : witPMb.lookup (prepKey witCm witPMb) = none ∧
+    witCm.wire.length = 11 ∧
+    ((writePrepared witCm witPMb none).2.1.wire.drop 11).take 9 = [0x82, 0xfe, 0x01, 0x2c, 0x11, 0x22, 0x33, 0x44, 0x53] ∧
+    (writePrepared witCm witPMb none).2.1.wire.length = 11 + 308 ∧
+    (writePrepared witCm witPMb none).2.2.cache.length = 2 := by decide +kernel
+
+/-- a server connection (buffer 4096) with compression level 0 (the level NewPreparedMessage's own entry is
+    keyed with), after it sent one message -/
+def witS0 : W := { newW true 4096 false false with level := 0 }
+def witS0_idle : Idle witS0 :=
+  ⟨rfl, rfl, rfl, (fun m h => by cases h), ⟨by decide, by decide⟩, ⟨[], by decide, rfl⟩, rfl⟩
+def witSm : W := (writeMessage witS0 1 witHello).2
+def witSm_idle : Idle witSm :=
+  (writeMessage_roundtrip witS0 witS0_idle 1 (Or.inl rfl) witHello (by decide)).2.1
+def witSm_plain : (prepKey witSm witPMb).compress = false := by decide +kernel
+
+/-- non-vacuity of `prepared_data_roundtrip`, second instance: the same prepared message on that server … -/
+example : (writePrepared witSm witPMb none).1 = none ∧ Idle (writePrepared witSm witPMb none).2.1 ∧
+    wireMessages (writePrepared witSm witPMb none).2.1 = wireMessages witSm ++ [⟨2, false, witData300⟩] ∧
+    wireControls (writePrepared witSm witPMb none).2.1 = wireControls witSm :=
+  prepared_data_roundtrip witSm witSm_idle witPMb witPMb_valid 2 (Or.inr rfl) rfl witData300_len witSm_plain
+
+/-- … where it is a cache hit: the entry made at creation is sent as it is and the cache does not grow -/
+example : (witPMb.lookup (prepKey witSm witPMb)).isSome ∧
+    witSm.wire.length = 7 ∧
+    ((writePrepared witSm witPMb none).2.1.wire.drop 7).take 5 = [0x82, 0x7e, 0x01, 0x2c, 0x42] ∧
+    (writePrepared witSm witPMb none).2.1.wire.length = 7 + 304 ∧
+    (writePrepared witSm witPMb none).2.2.cache.length = 1 := by decide +kernel
+
+/-- a prepared ping with the 5-byte payload "Hello", as NewPreparedMessage(PingMessage, "Hello") returns it -/
+def witPMp : PM :=
+  { t := 9, data := witHello, cache := [(⟨true, false, 0⟩, [0x89, 0x05, 0x48, 0x65, 0x6c, 0x6c, 0x6f])] }
+/-- Boolean test "the result is `.ok` with this type, payload and cache" (`PM` has no `DecidableEq`) -/
+def witOkIs (x : Except WErr PM) (pm : PM) : Bool :=
+  match x with | .ok p => p.t == pm.t && p.data == pm.data && p.cache == pm.cache | .error _ => false
+def witOkIs_sound {x : Except WErr PM} {pm : PM} (h : witOkIs x pm = true) : x = .ok pm := by
+  cases x with
+  | error e => simp [witOkIs] at h
+  | ok p =>
+    cases p; cases pm
+    simp only [witOkIs, Bool.and_eq_true, beq_iff_eq] at h
+    obtain ⟨⟨h1, h2⟩, h3⟩ := h
+    simp_all
+/-- witness for `newPrepared_valid`: `newPrepared 9 "Hello"` returns exactly `witPMp` -/
+def witPMp_new : (newPrepared 9 witHello witKeys 0).1 = .ok witPMp := witOkIs_sound (by decide +kernel)
+
+/-- non-vacuity of `newPrepared_valid`, second instance: the prepared ping -/
+example : PMValid witPMp ∧ witPMp.t = 9 ∧ witPMp.data = witHello :=
+  newPrepared_valid 9 witHello witKeys 0 witPMp witPMp_new
+def witPMp_valid : PMValid witPMp := (newPrepared_valid 9 witHello witKeys 0 witPMp witPMp_new).1
+
+/-- non-vacuity of `prepared_control_roundtrip`: all hypotheses hold for the prepared 5-byte ping sent on the
+    client (buffer 4096) that has already sent one message, and the theorem applies -/
+example : (writePrepared witCm witPMp none).1 = none ∧ Idle (writePrepared witCm witPMp none).2.1 ∧
+    wireMessages (writePrepared witCm witPMp none).2.1 = wireMessages witCm ∧
+    wireControls (writePrepared witCm witPMp none).2.1 = wireControls witCm ++ [(9, witHello)] :=
+  prepared_control_roundtrip witCm witCm_idle witPMp witPMp_valid 9 (Or.inl rfl) rfl (by decide)
+
+/-- … the wire gains the masked ping frame 89 85 11 22 33 44 … -/
+example : (writePrepared witCm witPMp none).2.1.wire.drop 11 =
+    [0x89, 0x85, 0x11, 0x22, 0x33, 0x44, 0x59, 0x47, 0x5f, 0x28, 0x7e] := by decide +kernel
+
+/-- non-vacuity of `cache_valid_preserved_data`: the cache of the 300-byte message after the send on the
+    client (which added the client variant) is still valid … -/
+example : PMValid (writePrepared witCm witPMb none [] []).2.2 :=
+  cache_valid_preserved_data witCm witPMb none [] [] witPMb_valid 2 (Or.inr rfl) rfl witData300_len
+
+/-- `witPM0` (prepared text "Hello") is what `newPrepared` returns, hence valid -/
+def witPM0_new' : (newPrepared 1 witHello witKeys 0).1 = .ok witPM0 := witOkIs_sound (by decide +kernel)
+def witPM0_valid : PMValid witPM0 := (newPrepared_valid 1 witHello witKeys 0 witPM0 witPM0_new').1
+
+/-- … and, second instance of `cache_valid_preserved_data`, so is the cache of "Hello" after the send on the
+    compressing client `witCZ`, where the environment supplied the compressed image (a third entry kind) -/
+example : PMValid (writePrepared witCZ witPM0 (some (witImgZ, witFull)) [] []).2.2 :=
+  cache_valid_preserved_data witCZ witPM0 (some (witImgZ, witFull)) [] [] witPM0_valid 1 (Or.inl rfl) rfl (by decide)
+
+/-- non-vacuity of `cache_valid_preserved_control`: the prepared ping after the send on the client
+    (cache: server entry + the client variant just rendered) -/
+example : PMValid (writePrepared witCm witPMp none [] []).2.2 :=
+  cache_valid_preserved_control witCm witPMp none [] [] witPMp_valid 9 (Or.inl rfl) rfl (by decide)
+example : (writePrepared witCm witPMp none [] []).2.2.cache.length = 2 := by decide +kernel
+
 end NonVacuity
 
 end WS.Props.C19
